@@ -195,6 +195,69 @@ def gen_main(tier, x_pub):
     return cells
 
 
+FRAG_LENS = [254, 255, 256, 510, 765]     # around the 255-byte TLV fragment size: 255/510/765 end on a FULL fragment
+
+
+def gen_fraglen(tier, x_pub):
+    """directed family (seed C04-G): for every step and transport an item the step expects, of length 254/255/256/510/765,
+    DIRECTLY before the Error item (and before a wrong State item) - a decoder that glues what follows a full
+    255-byte fragment onto it makes the Error disappear"""
+    cells = []
+    big = lambda n, salt: bytes((i * 5 + salt) & 0xFF for i in range(n))   # noqa: E731
+    for step in STEPS:
+        e = bytes([EXP_STATE[step]])
+        for n in FRAG_LENS:
+            if step == "S2":
+                fams = [("salt16,pk%d" % n, [(T_SALT, bytes(range(16))), (T_PK, big(n, 1))], {}),
+                        ("pk384,salt%d" % n, [(T_PK, big(384, 2)), (T_SALT, big(n, 3))], {})]
+            elif step == "S4":
+                fams = [("proof%d" % n, [(T_PROOF, big(n, 4))], {"srp": True}),
+                        ("proof64,enc%d" % n, [(T_PROOF, b"\x44" * 64), (T_ENC, big(n, 5))], {"srp": True})]
+            elif step == "S6":
+                fams = [("enc%d,valid" % n, [(T_ENC, big(n, 6))], {"m6plain": ref_encode(GOOD_SUB6)})]
+            elif step == "V2":
+                fams = [("pk32,enc%d,valid" % n, [(T_PK, x_pub), (T_ENC, big(n, 7))], {"v2plain": ref_encode(GOOD_SUB)})]
+            else:
+                fams = [("enc%d" % n, [(T_ENC, big(n, 8))], {})]          # not expected at M4: BLE only
+            for (fname, fitems, fo) in fams:
+                for err in (None, b"\x02", b"\x07", b"\x01"):
+                    for state in (None, e):
+                        layouts = [("last", lay_out("last", state, err, fitems))]
+                        if err is None:
+                            # the long item directly before a WRONG State item
+                            layouts = [("last", lay_out("last", state, None, fitems)),
+                                       ("state-after", fitems + [(T_STATE, bytes([EXP_STATE[step] ^ 1]))])]
+                        for (lname, items) in layouts:
+                            for t in ("U" if step == "V4" else "FU"):
+                                c = mk_cell("fraglen", step, t, items, fo, fields=fname, order=lname)
+                                c["meta"]["len_before_error"] = str(n)
+                                if t == "F":
+                                    cells.extend(with_status(c, st) for st in statuses_for(tier))
+                                else:
+                                    cells.append(c)
+    return cells
+
+
+def gen_adjacent(tier):
+    """raw replies with two ADJACENT items of one type (the decoder merges them: 07 01 05 07 01 07 is ONE Error item
+    05 07 -> Invalid; 06 01 02 06 01 02 is State 02 02 -> wrong state), judged by what an independent decoder sees"""
+    cells = []
+    for step in STEPS:
+        e = EXP_STATE[step]
+        raws = []
+        for c1, c2 in itertools.product([2, 5, 7], repeat=2):
+            raws.append(bytes([7, 1, c1, 7, 1, c2]))
+            raws.append(bytes([6, 1, e, 7, 1, c1, 7, 1, c2]))
+        raws += [bytes([6, 1, e, 6, 1, e]), bytes([6, 1, e, 6, 1, e, 7, 1, 2]), bytes([6, 1, e ^ 1, 6, 0]), bytes([7, 0, 7, 1, 2]),
+                 bytes([6, 0, 6, 1, e, 7, 1, 6])]
+        for raw in raws:
+            for t in "FU":
+                c = dict(stream="adjacent", step=step, t=t, items=None, raw=raw, o=default_oracles(), status=200,
+                         meta=dict(fields="-", order="adjacent-same-type", status="200" if t == "F" else "-"))
+                cells.append(c)
+    return cells
+
+
 def gen_extra(x_pub):
     """items of a type the step does not expect (RetryDelay, Identifier ...) placed around the error"""
     cells = []
@@ -335,7 +398,7 @@ def gen_mutated(cells, r, n):
     wire = [c for c in cells if c["t"] in "FU" and not c.get("ble")]
     for _ in range(n):
         c = r.choice(wire)
-        bs = bytearray(ref_encode(c["items"]))
+        bs = bytearray(cell_reply(c))
         if not bs:
             continue
         m = r.random()
@@ -1320,11 +1383,12 @@ def run(ctx):
                  stream=cell["stream"], step=cell["step"], transport=cell["t"], result=canon(impl).split(" ")[0] + " " + (impl.split(" ")[1] if impl.startswith("err") else ""),
                  error_code=("n/a" if items is None else err_name(next((v for k, v in items if k == T_ERROR), None))),
                  state=("n/a" if items is None else state_kind(items, 2 if mg else EXP_STATE[cell["step"]])),
-                 layout=cell["meta"]["order"], ble_pdu_frag=cell["meta"].get("pdu_frag", "-"),
+                 layout=cell["meta"]["order"], len_before_error=cell["meta"].get("len_before_error", "-"), ble_pdu_frag=cell["meta"].get("pdu_frag", "-"),
                  ble_exchanges=cell["meta"].get("exchanges", "-"), coap_code=cell["meta"].get("coap_code", "-"))
 
     # ---- the generator streams (fake crypto)
-    cells = gen_main(tier, x_pub) + gen_extra(x_pub) + gen_resume(x_pub) + gen_items(x_pub) + gen_ble(tier, x_pub)
+    cells = (gen_main(tier, x_pub) + gen_extra(x_pub) + gen_resume(x_pub) + gen_items(x_pub) + gen_ble(tier, x_pub)
+             + gen_fraglen(tier, x_pub) + gen_adjacent(tier))
     n_mut = 3000 if tier == "quick" else 60000
     cells += gen_mutated(cells, rng(seed, "c04mut"), n_mut)
     step_models = drv.batch([model_line(c) for c in cells])
@@ -1394,9 +1458,12 @@ def run(ctx):
     for op in ("ipadd", "iprem", "bleadd", "blerem"):
         for err in ERR_CODES:
             for state in states_for("S2"):
-                for (fname, fitems) in (("-", []), ("listing", listing), ("big", [(T_PK, bytes(300))])):
+                for (fname, fitems) in ((("-", []), ("listing", listing), ("big", [(T_PK, bytes(300))]))
+                                        + tuple(("id%d" % n, [(T_ID, bytes([0x41 + i % 26 for i in range(n)]))]) for n in FRAG_LENS)):
                     for order in (["last"] if err is None else ["last", "first", "mid"]):
                         for extra in (None, "leading", "trailing"):
+                            if fname.startswith("id") and (order != "last" or extra is not None) and tier == "quick":
+                                continue                   # the length family needs the long item directly before the Error item
                             items = lay_out(order, state, err, fitems)
                             if extra == "leading":
                                 items = [(T_RETRY, b"\x01")] + items
@@ -1623,8 +1690,8 @@ def run(ctx):
                 key += "/" + "+".join(sorted(ts)) + "-only"
             if orders != dom_o and len(orders) <= 2:
                 key += "/" + "+".join(sorted(orders))
-            if hs != dom_h:
-                key += "/http-" + "+".join(sorted(hs)) + "-only"
+            if hs != dom_h and hs - {"-"}:
+                key += "/http-" + "+".join(sorted(hs - {"-"})) + "-only"
             if {c["stream"] for c, _, _, _ in lst} == {"hist"}:
                 key += "/history-only"
         merged.setdefault(key, []).extend((c, impl, model, verdict, sk, ek) for c, impl, model, verdict in lst)
